@@ -70,6 +70,11 @@ package drpchttp
 //@   check [C14.header-error]  herr != nil ==> result1 == herr && eventCount("call:readExactly") == 1
 //@   check [C14.oversize]      herr == nil && be32(hdr[1:5]) > 4194304 ==> result1 != nil && eventCount("call:readExactly") == 1
 //@   check [C14.body-error]    berr != nil ==> result1 != nil
+//@   ghost entry isEOF = false
+//@   ghost after:Is isEOF = ret
+//@   site Is assert [C14.eof-test] arg0 == berr && arg1 == io.EOF
+//@   check [C14.truncated-body] berr != nil && isEOF ==> result1 == io.ErrUnexpectedEOF
+//@   check [C14.other-body-error] berr != nil && !isEOF ==> result1 == berr
 //@   check [C14.payload]       result1 == nil ==> result0 == body && berr == nil && herr == nil && eventCount("call:readExactly") == 2
 
 // twirp body: read to the end; a body over the limit is rejected, never truncated.
@@ -109,6 +114,10 @@ package drpchttp
 //@   site Sprintf assert [C14.drpc-code-text] arg0 == "drpcerr(%d)"
 //@   ghost entry dcode = 0
 //@   ghost after:Code#1 dcode = ret
+//@   ghost entry nxt = nil
+//@   ghost after:Cause nxt = ret
+//@   ghost after:Unwrap nxt = ret
+//@   loop 1 step [C14.follows-the-chain] eventCount("invoke:Cause") + eventCount("invoke:Unwrap") == 1 && err == nxt
 //@   check [C14.default-code] eventCount("call:(Value).Call") == 0 && dcode == 0 ==> result == "unknown"
 //@   check [C14.drpc-code-used] dcode != 0 ==> eventCount("call:Sprintf") == 1
 
@@ -169,6 +178,12 @@ package drpchttp
 //@   ghost entry clean = false
 //@   ghost after:TrimString clean = noCRLF(ret)
 //@   check [C14.no-injection] clean && eventCount("call:(*Buffer).WriteString") == 4
+//@   ghost entry trimmed = ""
+//@   ghost after:TrimString trimmed = ret
+//@   site (*Buffer).WriteString#1 assert [C14.trailer-line] arg1 == k
+//@   site (*Buffer).WriteString#2 assert [C14.trailer-line] arg1 == ": "
+//@   site (*Buffer).WriteString#3 assert [C14.trailer-line] arg1 == trimmed
+//@   site (*Buffer).WriteString#4 assert [C14.trailer-line] arg1 == "\r\n"
 
 //@ func (*grpcWebStream).Finish
 //@   props C14 C13
@@ -248,6 +263,14 @@ package drpchttp
 //@   site (Header).Get assert [C14.by-content-type] arg1 == "Content-Type"
 //@   site NewStream assert [C14.protocol-choice] arg0 == expect && arg1 == rw
 //@   site HandleRPC assert [C14.dispatch] arg0 == w.handler && arg1 == strm && arg2 == req0.URL.Path
+//@   ghost entry cerr = nil
+//@   ghost after:Context cerr = ret1
+//@   ghost entry cctx = nil
+//@   ghost after:Context cctx = ret0
+//@   ghost entry rctx = nil
+//@   ghost after:(*Request).WithContext rctx = ret
+//@   site (*Request).WithContext assert [C14.metadata-context] cerr == nil && arg0 == req0 && arg1 == cctx
+//@   site NewStream assert [C14.request-with-metadata] (cerr == nil ==> arg2 == rctx && eventCount("call:(*Request).WithContext") == 1) && (cerr != nil ==> arg2 == req0)
 //@   site Finish assert [C14.finish-with-result] arg0 == strm && arg1 == hres
 //@   check [C14.finish-once] eventCount("invoke:Finish") == 1 && eventCount("invoke:HandleRPC") == 1 && eventAfterLast("invoke:HandleRPC", "invoke:Finish")
 
